@@ -130,7 +130,7 @@ func VerifC16MalformedV1() {
 func VerifC16BatchV1() {
 	c := vClient(false)
 	n := nd.Int("count", 0, 27)
-	last := nd.Choice("last-request", 4) // 0 put, 1 delete, 2 both, 3 neither
+	last := nd.Choice("last-request", 6) // 0 put, 1 delete, 2 both, 3 neither, 4 put + delete with an empty key, 5 put with an empty item + delete
 	reqs := []*dynamodb.WriteRequest{}
 	for i := 0; i < n; i++ {
 		k := "k" + string(rune('a'+i))
@@ -143,6 +143,10 @@ func VerifC16BatchV1() {
 				r.DeleteRequest = &dynamodb.DeleteRequest{Key: vItem{"p": vS(k)}}
 			case 3:
 				r = &dynamodb.WriteRequest{}
+			case 4:
+				r.DeleteRequest = &dynamodb.DeleteRequest{Key: vItem{}}
+			case 5:
+				r = &dynamodb.WriteRequest{PutRequest: &dynamodb.PutRequest{Item: vItem{}}, DeleteRequest: &dynamodb.DeleteRequest{Key: vItem{"p": vS(k)}}}
 			}
 		}
 		reqs = append(reqs, r)
